@@ -669,6 +669,16 @@ pub fn decisions_so_far() -> (Vec<u8>, u64) {
     }
 }
 
+/// Progress that is not a scheduler step (the checker's own bounded search over a recorded
+/// history): keeps the parent's watchdog from taking a long search for a run that hangs.
+pub fn beat() {
+    let hb = HEARTBEAT.load(Relaxed);
+    if !hb.is_null() {
+        // SAFETY: points into the shared region owned by the worker; single writer at this point
+        unsafe { std::ptr::write_volatile(hb, std::ptr::read_volatile(hb).wrapping_add(1)) };
+    }
+}
+
 // ------------------------------------------------------------------ fine-grained windows
 //
 // Hook points are coarse: two plain `Arc` operations in one `drop`, or two
@@ -778,6 +788,34 @@ pub fn install_trap_handler() {
         libc::sigemptyset(&mut sa.sa_mask);
         libc::sigaction(libc::SIGTRAP, &sa, std::ptr::null_mut());
     }
+}
+
+/// Run `f` with a preemption right after the `j`-th atomic read-modify-write instruction of code
+/// under test (reference counts, un-hooked locks: the instants at which two owners or two lock
+/// users can cross), within a budget of 6000 single steps.
+pub fn fine_window_atomic<R>(j: u64, f: impl FnOnce() -> R) -> R {
+    if j == 0 || !in_sim() || !cfg!(target_arch = "x86_64") {
+        return f();
+    }
+    FINE_LEFT.with(|c| c.set(6000));
+    FINE_ATOMIC_TARGET.with(|c| c.set(j));
+    FINE_ATOMIC_SEEN.with(|c| c.set(0));
+    FINE_PREV_ATOMIC.with(|c| c.set(false));
+    FINE_ON.with(|c| c.set(true));
+    #[cfg(target_arch = "x86_64")]
+    // SAFETY: sets the trap flag of this thread
+    unsafe {
+        core::arch::asm!("pushfq", "or qword ptr [rsp], 0x100", "popfq");
+    }
+    let r = f();
+    #[cfg(target_arch = "x86_64")]
+    // SAFETY: clears the trap flag of this thread
+    unsafe {
+        core::arch::asm!("pushfq", "and qword ptr [rsp], -257", "popfq");
+    }
+    FINE_ON.with(|c| c.set(false));
+    FINE_ATOMIC_TARGET.with(|c| c.set(0));
+    r
 }
 
 /// Run `f` with a preemption after exactly `k` instructions of code under test.
